@@ -42,14 +42,14 @@ type TreeGen struct {
 	R        *Rand
 	MaxDepth int
 	// fragment switches
-	Funcs     bool
-	Proj      bool
-	Logic     bool
-	Multi     bool
-	Pipes     bool
-	IllTyped  int // one in IllTyped type hints is ignored (0 = never)
-	ExtraKeys []string // untyped keys mixed in (a b c "" é "k k")
-	HostileInts bool   // extreme integers in indices and slices
+	Funcs       bool
+	Proj        bool
+	Logic       bool
+	Multi       bool
+	Pipes       bool
+	IllTyped    int      // one in IllTyped type hints is ignored (0 = never)
+	ExtraKeys   []string // untyped keys mixed in (a b c "" é "k k")
+	HostileInts bool     // extreme integers in indices and slices
 	// function names to draw from (nil = all 26)
 	FuncNames []string
 }
@@ -361,11 +361,11 @@ func (g *TreeGen) rhs(d int, w Want) []Step {
 }
 
 type fnTemplate struct {
-	name string
-	ret  Want
-	args []Want // WAny etc.; expref positions are marked by exprefAt
-	expref int  // index of the expression-reference argument, -1 none
-	erBody Want // what the expref body should evaluate to
+	name     string
+	ret      Want
+	args     []Want // WAny etc.; expref positions are marked by exprefAt
+	expref   int    // index of the expression-reference argument, -1 none
+	erBody   Want   // what the expref body should evaluate to
 	variadic bool
 }
 
